@@ -106,6 +106,8 @@ def emit(ctx, plan, case, hist, op, issue: Issue, extra=None):
     if plan.cond_fn is not None:
         cond = plan.cond_fn(case, hist, op, issue) or cond
     sig = f"{plan.prop}|op={op}|on={case.node.kind}|field={issue.clause}|cond={cond or 'any'}"
+    if getattr(plan, "sig_fn", None) is not None:
+        sig = plan.sig_fn(case, hist, op, issue, sig) or sig
     ctx.violation(
         sig,
         case=case.cid,
@@ -186,8 +188,12 @@ def run_case(ctx, plan, rng, ci, nops):
     names = list(plan.ops)
     weights = np.array([plan.ops[n] for n in names], dtype=float)
     nedit = 0
+    budget = ctx.pick(*getattr(plan, "budget_s", (75, 900)))
     for step in range(nops):
         if not names:
+            break
+        if ctx.elapsed() > budget + 20:
+            ctx.count("histories_cut_by_budget")
             break
         op = names[int(rng.choice(len(names), p=weights / weights.sum()))]
         handler = plan.extra_ops.get(op) or OPS.get(op)
